@@ -154,7 +154,8 @@ def _cause(eng, p, x, m, s, sigs, expected_args):
             return "timestamp or version present"
         if ("eq", ty, C("root")) in facts and ("nothas", s, C("version")) in facts:
             return "root metadata has a version"
-        return None
+        if len(x.chain) == 1:
+            return None
     if x.origin == "assert":
         return None
     for ev in flat(p):
